@@ -379,6 +379,14 @@ func (q *Queue) Read(pids []packets.PacketID) (elems []*queue.Elem, err error) {
 func (q *Queue) ReadInflight(maxSize uint) (elems []*queue.Elem, err error) {
 	q.cond.L.Lock()
 	defer q.cond.L.Unlock()
+	if maxSize == 0 {
+		// Nothing may be read. LRANGE cur cur-1 is empty by construction (and LRANGE 0 -1 is the whole list):
+		// the reply says nothing about the in-flight entries, only an exhausted list does.
+		if q.current >= q.len {
+			q.inflightDrained = true
+		}
+		return nil, nil
+	}
 	conn := q.pool.Get()
 	defer conn.Close()
 	rs, err := redigo.Values(conn.Do("lrange", getKey(q.clientID), q.current, q.current+int(maxSize)-1))
